@@ -211,14 +211,86 @@ def gen_image(tier):
         """Large extents with 'round' physical lengths: dimensions / (dimensions / n) is then often
         n (1 - eps), the hazard for any integer conversion of a float quotient."""
         dim = draw(st.sampled_from([1, 2, 3]))
-        mx = {1: 200, 2: 130, 3: 40}[dim]
+        mx = {1: 200, 2: 160, 3: 40}[dim]
         shape = [draw(st.integers(1, mx)) for _ in range(dim)]
+        if dim == 2 and draw(st.sampled_from([False, False, True])):
+            shape = [draw(st.integers(120, 160)), draw(st.integers(120, 160))]  # > 2^15 faces, < 2^15 cells
         dims = [draw(st.sampled_from([1.0, 0.3, 1.2, 0.1, 1.5, 0.7, 2.0, 1e-4, 9.1])) for _ in range(dim)]
         return {"img": {"dim": dim, "shape": shape, "dimensions": dims, "origin": None, "payload": "scalar",
                         "ncomp": 0, "series": False, "nt": 0, "dtype": "bool", "time": "none", "t0": 0,
                         "dt": 1, "pseed": 0, "name": None}, "large": True}
 
     return st.one_of(small, large())
+
+
+def _vector_checks(g, shape, t):
+    """Vectorised consistency of the numbering for grids of any size: faces numbered once,
+    connectivity joins neighbours along the normal axis, the cell-to-face lookup is its inverse."""
+    shape = tuple(int(x) for x in shape)
+    dim = len(shape)
+    con = np.asarray(g.connectivity)
+    rc = np.asarray(g.reverse_connectivity)
+    nf = int(g.num_faces)
+    allf = np.concatenate([np.asarray(g.faces[d]).ravel() for d in range(dim)]) if dim else np.zeros(0, int)
+    if len(allf) != nf or not np.array_equal(np.sort(allf), np.arange(nf)):
+        raise Violation("grid-face-numbering", "faces are not numbered exactly once", t)
+    if con.shape != (nf, 2) or (nf and (con.min() < 0 or con.max() >= int(g.num_cells))):
+        raise Violation("grid-connectivity-range", "connectivity holds invalid cell numbers", t)
+    strides = np.cumprod((1,) + shape[:-1])  # Fortran-order strides
+    for d in range(dim):
+        f = np.asarray(g.faces[d]).ravel()
+        if len(f) == 0:
+            continue
+        if not np.array_equal(con[f, 1] - con[f, 0], np.full(len(f), strides[d])):
+            raise Violation("grid-not-neighbours", f"axis {d}: a face does not join neighbours along its normal", t)
+        if (con[f, 0] // strides[d] % shape[d] == shape[d] - 1).any():
+            raise Violation("grid-not-neighbours", f"axis {d}: a face wraps around the boundary", t)
+        if not (np.array_equal(rc[d, con[f, 0], 1], f) and np.array_equal(rc[d, con[f, 1], 0], f)):
+            bad = f[(rc[d, con[f, 0], 1] != f) | (rc[d, con[f, 1], 0] != f)][0]
+            raise Violation("grid-reverse-inverse", f"axis {d}: cell-to-face lookup does not return face {int(bad)} "
+                            f"for its cells (got {int(rc[d, con[bad, 0], 1])} / {int(rc[d, con[bad, 1], 0])})", t)
+        nboundary = int(np.prod(shape)) // shape[d]
+        if int((rc[d, :, 0] == -1).sum()) != nboundary or int((rc[d, :, 1] == -1).sum()) != nboundary \
+                or (rc[d] < -1).any():
+            raise Violation("grid-reverse-boundary", f"axis {d}: 'no face' entries are not exactly the boundary", t)
+
+
+def gen_image_sequence(tier):
+    @st.composite
+    def strat(draw):
+        spec = draw(gens.image_specs(dims=(1, 2, 3), max_extent={1: 30, 2: 9, 3: 5}, dtypes=("float64",),
+                                     series=(False,), payloads=("scalar",)))
+        new_shape = [draw(st.integers(1, {1: 30, 2: 9, 3: 5}[spec["dim"]])) for _ in range(spec["dim"])]
+        return {"img": spec, "new_shape": new_shape, "how": draw(st.sampled_from(["assign", "update_metadata"])),
+                "new_dims": draw(st.booleans())}
+
+    return strat()
+
+
+def check_grid_follows_image(case):
+    """generate_grid on one image object before and after the image was changed in place (as
+    corrections with overwrite=True do): the second grid matches the *current* image."""
+    spec = case["img"]
+    img = gens.build_image(spec)
+    t = {"dim": spec["dim"]}
+    g0 = darsia.generate_grid(img)
+    if list(g0.shape) != list(spec["shape"]):
+        raise Violation("grid-shape", f"{g0.shape} vs {spec['shape']}", t)
+    new = np.zeros(case["new_shape"])
+    if case["how"] == "assign":
+        img.img = new
+    else:
+        img.update_metadata(img=new)
+    if case["new_dims"]:
+        img.update_metadata(dimensions=[2.0 * d for d in spec["dimensions"]])
+    g1 = darsia.generate_grid(img)
+    if list(g1.shape) != list(case["new_shape"]) or list(g1.shape) != list(img.num_voxels):
+        raise Violation("grid-stale-after-inplace-change", f"grid shape {tuple(g1.shape)} for an image that now has "
+                        f"shape {tuple(img.num_voxels)} (was {tuple(spec['shape'])})", t)
+    if not np.allclose(np.asarray(g1.voxel_size, float), np.asarray(img.voxel_size, float), rtol=1e-15):
+        raise Violation("grid-stale-after-inplace-change", "voxel size of the grid does not follow the image", t)
+    _vector_checks(g1, case["new_shape"], t)
+    return Outcome(list(case["new_shape"]) != list(spec["shape"]), case, (f"dim{spec['dim']}", case["how"]))
 
 
 def check_grid_from_image(case):
@@ -238,6 +310,7 @@ def check_grid_from_image(case):
     if int(g.num_cells) != tot or int(g.num_faces) != sum(tot - tot // n for n in spec["shape"]):
         raise Violation("grid-counts", f"{g.num_cells} cells / {g.num_faces} faces for image shape "
                         f"{spec['shape']}", t)
+    _vector_checks(g, spec["shape"], t)
     if not case.get("large"):
         ref = RefGrid(spec["shape"], want)
         if not np.array_equal(np.asarray(g.connectivity), ref.connectivity()):
@@ -267,6 +340,8 @@ PROP = Prop(
         Sub("reverse_is_inverse", check_reverse, enum=enum_shapes, exhaustive=True, shards=_ONE),
         Sub("interior_exterior_partition", check_partition, enum=enum_shapes, exhaustive=True, shards=_ONE),
         Sub("corner_indices_on_face", check_corners, enum=enum_shapes, exhaustive=True, shards=_ONE),
+        Sub("grid_follows_image_changes", check_grid_follows_image, gen=gen_image_sequence,
+            n={"quick": 400, "thorough": 8000}, shards={"quick": 2, "thorough": 8}),
         Sub("grid_from_image", check_grid_from_image, gen=gen_image,
             n={"quick": 2400, "thorough": 40000}, shards={"quick": 6, "thorough": 16}),
     ],
